@@ -166,6 +166,10 @@ class timemodel(_coreiterative):
         """restore (or clear with None) the history of multistep integrators"""
         pass
 
+    def _clear_cache(self):
+        """forget data cached from a previous computation (see implicitmodel)"""
+        pass
+
     def _check_end(self, stop):
         """
         """
@@ -239,6 +243,7 @@ class timemodel(_coreiterative):
         """ """
         self.reset(itstart=0) # reset cputime and nit
         self._set_history(None) # a new computation starts without multistep history (restart keeps it)
+        self._clear_cache() # and without data cached from the fields of previous computations
         self._remove_monitor_output(monitors)
         return self._solve(f, condition, tsave, stop, flush, monitors, directives)
 
@@ -606,6 +611,11 @@ class implicitmodel(timemodel):
 
         """
         raise NotImplementedError("not implemented: virtual implicit class")
+
+    def _clear_cache(self):
+        """forget the jacobian kept for linear models: it is computed from the first field of a computation"""
+        if hasattr(self, "jacobian_use"):
+            del self.jacobian_use
 
     def calc_jacobian(self, field, epsdiff=1.0e-6):
         """jacobian matrix dR/dQ of dQ/dt=R(Q) is computed as successive columns by finite difference of R(Q+dQ)
